@@ -1072,10 +1072,22 @@ func checkPadding(r *Report, a *Analysis, sc *Scope, rule string, strict bool) {
 	B := a.B
 	var cands []*ssa.Function
 	for _, fn := range sortedFns(p, sc.Decrypt) {
-		if fn.Signature.Params().Len() != 1 || fn.Signature.Results().Len() != 2 || errIndex(fn) != 1 {
+		if fn.Signature.Recv() != nil || fn.Signature.Params().Len() < 1 || fn.Signature.Results().Len() != 2 || errIndex(fn) != 1 {
 			continue
 		}
 		if types.TypeString(fn.Signature.Params().At(0).Type(), nil) != "[]byte" || types.TypeString(fn.Signature.Results().At(0).Type(), nil) != "[]byte" {
+			continue
+		}
+		// it returns a prefix of its first parameter (further parameters, e.g. a block size, are allowed)
+		slices := false
+		for _, b := range fn.Blocks {
+			for _, in := range b.Instrs {
+				if sl, ok := in.(*ssa.Slice); ok && sl.X == ssa.Value(fn.Params[0]) && sl.Low == nil && sl.High != nil {
+					slices = true
+				}
+			}
+		}
+		if !slices {
 			continue
 		}
 		cands = append(cands, fn)
